@@ -8,6 +8,10 @@ Check (C08_order_irrelevant : forall m o o', same_object o o' -> distinct_names 
 Check (C08_doc_order_irrelevant : forall m d d', Forall2 same_object d d' -> Forall distinct_names d ->
   Forall2 (fun r r' => r_form r = r_form r' /\ r_attached r = r_attached r' /\ r_bindings r = r_bindings r' /\ r_callbacks r = r_callbacks r' /\
                        r_header r = r_header r' /\ Permutation (r_diags r) (r_diags r')) (run_doc m d) (run_doc m d')).
+Check (C08_members_order_irrelevant : forall m o ps ps', Forall2 pequiv_d ps ps' ->
+  let r := run m (with_props o ps) in let r' := run m (with_props o ps') in
+  r_form r = r_form r' /\ r_attached r = r_attached r' /\ r_bindings r = r_bindings r' /\ r_callbacks r = r_callbacks r' /\
+  r_header r = r_header r' /\ Permutation (r_diags r) (r_diags r')).
 Check (C08_sorted_output_unique : forall (A : Type) (key : A -> string) l l',
   Permutation l l' -> NoDup (map key l) -> sort_by key l = sort_by key l').
 Check (C08_history_free : forall m d1 d2, run_doc m (d1 ++ d2)%list = (run_doc m d1 ++ run_doc m d2)%list).
